@@ -143,10 +143,17 @@ def reported_state(rep_i, capabilities):
     return dict(REPORTED[rep_i])
 
 
+def cap_pages_for(capabilities):
+    if capabilities == "nodisplay":
+        # the same unit, except that its capability report does not mention display control (0x0224) at all
+        return [[r for r in CAP_PAGES[0] if r[:2] != b"\x24\x02"], CAP_PAGES[1]]
+    return CAP_PAGES
+
+
 def run_cli(settings, rep_i, version=2, capabilities=False):
     w = World()
     w.adopt_asyncio_run()
-    model = RefAC(reported_state(rep_i, capabilities), cap_pages=CAP_PAGES)
+    model = RefAC(reported_state(rep_i, capabilities), cap_pages=cap_pages_for(capabilities))
     token, key = filler("c20/t", 64), filler("c20/k", 32)
     dev = SimDevice(version=version, device_id=0 if version == 2 else 4242, ac=model, token=token, key=key)
     w.net.listen(IP, 6444, dev)
@@ -247,6 +254,11 @@ def run_shard(shard, tier) -> Stats:
                 code, model, net, dev = run_cli(settings, rep_i, 2, capabilities=True)
                 prob = judge_valid(st, case, code, model, net, exps, rep_i)
                 st.ev((tuple(settings), rep_i, "caps"), "applied" if not prob else "wrong", True)
+                if any(s_.lower().startswith("display_on") for s_ in settings):
+                    case = {**case, "label": label + " --capabilities (unit does not advertise display control)", "capabilities": "nodisplay"}
+                    code, model, net, dev = run_cli(settings, rep_i, 2, capabilities="nodisplay")
+                    prob = judge_valid(st, case, code, model, net, exps, rep_i)
+                    st.ev((tuple(settings), rep_i, "caps-nodisplay"), "applied" if not prob else "wrong", True)
     elif kind in ("valid", "pairs"):
         cases = valid_cases() if kind == "valid" else pair_cases()
         for i in range(part, len(cases), nparts):
